@@ -20,3 +20,19 @@ Theorem tie_junit_statuses s has_sds atc :
   py_in (enc_full s) py_junit_FAIL_STATUSES = VBool (is_failure (junit_classify (Executed s has_sds atc))) /\
   py_in (enc_full s) py_junit_ERROR_STATUSES = VBool (is_error (junit_classify (Executed s has_sds atc))).
 Proof. destruct s; split; reflexivity. Qed.
+
+(** test_suite/exit_values.py: the exit values of a suite run *)
+Theorem tie_suite_exit_values :
+  (py_attr_exit_code py_exit_values_ALL_PASS = VInt (fst (progress_final []))
+   /\ py_attr_exit_identifier py_exit_values_ALL_PASS = VStr "OK") /\
+  (forall r rs, progress_success r = false ->
+     py_attr_exit_code py_exit_values_FAILED_TESTS = VInt (fst (progress_final (r :: rs)))) /\
+  py_attr_exit_identifier py_exit_values_FAILED_TESTS = VStr "ERROR" /\
+  (forall rep fs root outcome e, read_root fs root = inl e ->
+     py_attr_exit_code py_exit_values_INVALID_SUITE = VInt (run_exit (run_suite rep fs root outcome))) /\
+  py_attr_exit_identifier py_exit_values_INVALID_SUITE = VStr "INVALID_SUITE".
+Proof.
+  repeat split.
+  - intros r rs H. unfold progress_final. cbn [forallb]. rewrite H. reflexivity.
+  - intros rep fs root outcome e H. unfold run_suite. rewrite H. reflexivity.
+Qed.
